@@ -235,6 +235,14 @@ func (d *dagGen) step() {
 				outs = append(outs, poolT{d.fresh(""), []int{1, a.shape[1], h}})
 				outs = outs[:1+rng.Intn(3)]
 			}
+			// ONNX lets a node omit an output by giving it the empty name (also in the middle of the list)
+			if len(outs) >= 2 && rng.Intn(2) == 0 {
+				k := rng.Intn(len(outs))
+				if k == len(outs)-1 && rng.Intn(2) == 0 {
+					k = 0
+				}
+				outs[k] = poolT{"", nil}
+			}
 			d.addNode(op, []Attr{{Name: "hidden_size", Type: "i", I: int64(h)}, {Name: "activations", Type: "strings", Ss: acts}}, ins, outs)
 		}
 	case 12: // Flatten
